@@ -113,6 +113,13 @@ fn more_rotation(g: &mut Gen) {
         g.cfg.weights.rotate = 3;
     }
     g.oversize_data = true;
+    // in a third of the runs invitations stay pending for a while (removed and re-invited
+    // meanwhile: two pending invitations with different group data)
+    g.slow_accept = g.cfg.seed % 3 == 0;
+    if g.slow_accept {
+        g.cfg.weights.invite += 3;
+        g.cfg.weights.remove += 2;
+    }
 }
 
 pub fn spec() -> CheckSpec {
